@@ -480,7 +480,8 @@ def capacity_history(rng):
             rng.choice(["-", "60000"]), lim(10000)))
         g.run_of[h] = run
         runs.append(run)
-    for period in range(rng.randint(1, 3)):
+    late = {}
+    for period in range(rng.randint(1, 4)):
         for _ in range(rng.randint(3, 8)):
             run = rng.choice(runs)
             n = rng.randint(2, 6)
@@ -494,8 +495,18 @@ def capacity_history(rng):
                 parts.append("sql=%d:%d:%d:%d:%d:%d" % (rng.randint(1, 16), rng.randint(1, 3), mx * 2, rng.randint(0, mx), mx, g.fresh()[0]))
             g.ops.append(" ".join(parts))
         for run in runs:
+            if late.get(run):
+                # the previous period's requests are answered only now, after this period's data has arrived: what a
+                # failed delivery hands back meets a container that is no longer empty
+                g.drain(run, late.pop(run))
             g.trigger(run, mask=rng.choice([ALL, ALL, 527, 527, 16 | 32 | 64 | 128 | 256, 256, 32]))
-            g.drain(run, "200")
+            if rng.random() < 0.6:
+                g.drain(run, "200")
+            else:
+                late[run] = rng.choice(["503", "503", "429", "500", "408", "200"])
+    for run in runs:
+        if late.get(run):
+            g.drain(run, late.pop(run))
     g.ops.append("proc state")
     g.ops.append("proc cleanexit default=200")
     return g.ops
